@@ -7,6 +7,7 @@
 import Driver.Codec
 import Mistletoe.Props.C14
 import Mistletoe.Props.C03
+import Mistletoe.Props.C09
 open Lean Mistletoe
 
 /-- op "c14.hyps": {"lines": [String]} → the hypotheses of `C14_prose_text` evaluated on these lines -/
@@ -48,10 +49,36 @@ def c03Fragment (j : Json) : Except String Json := do
                     ("html", Driver.str (Compose.htmlOf o ts)),
                     ("needs", Driver.nat (Compose.needs ts))])
 
+/-- a block of the C09 fragment from JSON: {"k":"para","lines":[…]} | {"k":"heading","level":n,"text":…} | {"k":"hr","c":"*"} -/
+def blkOf (j : Json) : Except String MdRound.Blk := do
+  let k ← j.getObjValAs? String "k"
+  match k with
+  | "para" => do pure (.para (← (← Driver.getArr j "lines").toList.mapM Driver.asStr))
+  | "heading" => do pure (.heading (← j.getObjValAs? Nat "level") (← Driver.getStr j "text"))
+  | "hr" => do
+    match (← Driver.getStr j "c") with
+    | [c] => pure (.hr c)
+    | _ => throw "hr: one character"
+  | k => throw s!"block kind {k}"
+
+/-- op "c09.fragment": {"blocks": [block, …] (non-empty), "depth": k} → the hypotheses of `C09_blocks_roundtrip_markdown`
+    (`Blk.ok` of every block, tab-free lines) evaluated on the blocks, and the text the theorem speaks about
+    (the blocks separated by single empty lines behind `k` markers "> ") -/
+def c09Fragment (j : Json) : Except String Json := do
+  let bs ← (← Driver.getArr j "blocks").toList.mapM blkOf
+  let k := (j.getObjValAs? Nat "depth").toOption.getD 0
+  match bs with
+  | [] => throw "blocks: empty"
+  | it :: rest =>
+    let lines := MdRound.itemsLines it rest
+    let ok := it.ok && rest.all (·.ok) && lines.all (fun l => !l.contains '\t')
+    pure (Json.mkObj [("ok", Json.bool ok), ("text", Driver.str (Props.C09.quoted k lines).flatten)])
+
 def dispatch (op : String) (j : Json) : Except String Json :=
   match op with
   | "c14.hyps" => c14Hyps j
   | "c03.fragment" => c03Fragment j
+  | "c09.fragment" => c09Fragment j
   | "ping" => pure (Json.str "pong")
   | _ => throw s!"unknown op {op}"
 
